@@ -170,6 +170,8 @@ class PEval:
         if isinstance(op, (ast.Is, ast.IsNot)):
             if isinstance(a, Lit) and isinstance(b, Lit):
                 r = a.v is b.v if not isinstance(a.v, (int, str, bytes)) or isinstance(a.v, bool) else a.v == b.v
+            elif isinstance(a, Obj) and isinstance(b, Obj):
+                r = a is b              # two abstract objects are the same object iff they are the same abstract value
             elif isinstance(b, Lit) and b.v is None:
                 r = False if isinstance(a, (Lst, Dct, Obj)) or (isinstance(a, Sym) and a.nn) else None
                 if r is None:
